@@ -123,38 +123,41 @@ func runC17(c *Ctx) {
 					f = eng.Or(f, g)
 				}
 			}
-			atoms := d.Atoms(f)
 			const max = "nbio.Config.MaxWriteBufferSize"
-			var aPos, aSum string
+			const left = "nbio.Conn.left"
+			const arg = "param#1"
+			leaves := d.Leaves(f)
 			detail := ""
-			for _, a := range atoms {
-				switch a {
-				case "(" + max + " > 0)":
-					aPos = a
-				case "((nbio.Conn.left + param#1) > " + max + ")", "((param#1 + nbio.Conn.left) > " + max + ")",
-					"(" + max + " < (nbio.Conn.left + param#1))", "(" + max + " < (param#1 + nbio.Conn.left))":
-					aSum = a
-				default:
-					detail = "unexpected condition " + a
+			for l := range leaves {
+				if l != max && l != left && l != arg {
+					detail = "overflow() depends on " + l + "; expected only MaxWriteBufferSize, left and n"
 				}
 			}
-			if aPos == "" || aSum == "" || len(atoms) != 2 {
-				if detail == "" {
-					detail = fmt.Sprintf("conditions are %v; expected Max>0 and left+n>Max", atoms)
-				}
+			if !leaves[max] || !leaves[left] || !leaves[arg] {
+				detail = fmt.Sprintf("overflow() reads %v; expected MaxWriteBufferSize, left and n", sortedKeys(leaves))
+			}
+			if detail != "" {
 				c.Bad("C17.O2", key, c.FnPos(fn), detail)
 			} else {
+				// evaluated over a grid of values around every boundary of the formula
+				n := 0
 				ok := true
-				for _, p := range []int64{0, 1} {
-					for _, s := range []int64{0, 1} {
-						got, err := d.Eval(f, eng.Env{aPos: p, aSum: s})
-						if err != nil || got != (p == 1 && s == 1) {
-							ok = false
+				witness := ""
+				for _, m := range []int64{-3, 0, 1, 4, 10} {
+					for _, l := range []int64{0, 1, 3, 4, 5, 9, 10, 11} {
+						for _, a := range []int64{0, 1, 2, 6, 7} {
+							n++
+							got, err := d.Eval(f, eng.Env{max: m, left: l, arg: a})
+							want := m > 0 && l+a > m
+							if err != nil || got != want {
+								ok = false
+								witness = fmt.Sprintf("Max=%d left=%d n=%d: overflow()=%v, expected %v", m, l, a, got, want)
+							}
 						}
 					}
 				}
-				c.ExhaustiveTbl["overflow truth table"] = 4
-				c.Cond(ok, "C17.O2", key, c.FnPos(fn), "formula == (Max>0) AND (left+n>Max) on all 4 atom assignments", "overflow() is not the conjunction Max>0 && left+n>Max")
+				c.ExhaustiveTbl["overflow value grid"] = n
+				c.Cond(ok, "C17.O2", key, c.FnPos(fn), fmt.Sprintf("formula == (Max>0 && left+n>Max) on %d value assignments around the boundaries", n), "overflow() is not Max>0 && left+n>Max: "+witness)
 			}
 		}
 	}
